@@ -298,6 +298,10 @@ func (w *PollWorker) Process(mesg *aio.Message) {
 		mesg.Done(false, err)
 		return
 	}
+	if data == nil {
+		mesg.Done(false, fmt.Errorf("invalid poll receiver data %s", mesg.Data))
+		return
+	}
 
 	// check if we have a connection
 	conn, ok := w.connections.get(data.Group, data.Id)
